@@ -35,23 +35,40 @@ def items(tier):
 
     def add(kind, ident, **kw):
         out.append(dict(kind=kind, id="%s-%s" % (kind, ident), **kw))
+    # (a) LinSolve plumbing with a contract-oracle inner solver (any class, dense/sparse, LDAWrapper on/off)
     for n in BOUNDS[tier]["linsolve_n"]:
-        for mclass in ("general", "symmetric", "diagonal"):
-            for lda in (False, True):
-                if n >= 3 and lda and q:
-                    continue
-                add("linsolve", "n%d-%s-%s" % (n, mclass, "lda" if lda else "nolda"), n=n, mclass=mclass, lda=lda)
-        add("linsolve", "n%d-sparse" % n, n=n, mclass="general", sparse=True, lda=False)
-    add("linsolve", "n2-2rhs", n=2, mclass="general", nrhs=2, lda=False)
-    add("linsolve", "n2-2rhs-lda", n=2, mclass="general", nrhs=2, lda=True)
-    add("linsolve", "n2-cplx", n=2, mclass="general", cplx=True, lda=False)
-    add("linsolve", "n2-herm", n=2, mclass="hermitian", cplx=True, lda=False)
-    add("linsolve", "n2-cplxrhs", n=2, mclass="general", cplx_rhs=True, lda=False)
-    add("linsolve", "n2-sparse-2rhs", n=2, mclass="general", sparse=True, nrhs=2, lda=False)
-    add("linsolve", "n2-sparse-lda", n=2, mclass="symmetric", sparse=True, lda=True)
+        for mclass in ("general", "symmetric"):
+            for sparse in (False, True):
+                for lda in (False, True):
+                    if lda and (n > 2 or q and sparse):
+                        continue
+                    add("linsolve", "orc-n%d-%s-%s-%s" % (n, mclass, "sp" if sparse else "de", "lda" if lda else "nolda"),
+                        n=n, mclass=mclass, sparse=sparse, lda=lda, solver="oracle")
+    add("linsolve", "orc-n2-2rhs", n=2, mclass="general", nrhs=2, lda=False, solver="oracle")
+    add("linsolve", "orc-n2-2rhs-sp", n=2, mclass="general", nrhs=2, sparse=True, lda=False, solver="oracle")
     if not q:
-        add("linsolve", "n2-csym", n=2, mclass="symmetric", cplx=True, lda=False)
-        add("linsolve", "n2-cplx-lda", n=2, mclass="general", cplx=True, lda=True)
+        add("linsolve", "orc-n2-2rhs-lda", n=2, mclass="general", nrhs=2, lda=True, solver="oracle")
+    add("linsolve", "orc-n2-cplx", n=2, mclass="general", cplx=True, lda=False, solver="oracle")
+    add("linsolve", "orc-n2-herm", n=2, mclass="hermitian", cplx=True, lda=False, solver="oracle")
+    add("linsolve", "orc-n2-csym", n=2, mclass="symmetric", cplx=True, lda=False, solver="oracle")
+    add("linsolve", "orc-n2-cplxrhs", n=2, mclass="general", cplx_rhs=True, lda=False, solver="oracle")
+    add("linsolve", "orc-n2-symflag", n=2, mclass="symmetric", lda=False, solver="oracle", flags=dict(symmetric=True))
+    add("linsolve", "orc-n2-hermflag", n=2, mclass="hermitian", cplx=True, lda=False, solver="oracle", flags=dict(hermitian=True))
+    if not q:
+        add("linsolve", "orc-n2-cplx-lda", n=2, mclass="general", cplx=True, lda=True, solver="oracle")
+        add("linsolve", "orc-n2-herm-lda", n=2, mclass="hermitian", cplx=True, lda=True, solver="oracle")
+    # (b) LinSolve with its own solver choice: the real dense solver classes on exact factor models
+    for n in BOUNDS[tier]["linsolve_n"]:
+        add("linsolve", "real-n%d-general" % n, n=n, mclass="general", lda=False, solver="real", nonsym=True)
+        add("linsolve", "real-n%d-diagonal" % n, n=n, mclass="diagonal", lda=False, solver="real")
+        add("linsolve", "real-n%d-sparse" % n, n=n, mclass="general", sparse=True, lda=False, solver="real")
+    add("linsolve", "real-n2-symindef", n=2, mclass="symmetric", lda=False, solver="real", indef=True)
+    add("linsolve", "real-n2-general-lda", n=2, mclass="general", lda=True, solver="real", nonsym=True)
+    add("linsolve", "real-n2-2rhs", n=2, mclass="general", nrhs=2, lda=False, solver="real", nonsym=True)
+    add("linsolve", "real-n2-cplx", n=2, mclass="general", cplx=True, lda=False, solver="real", nonsym=True)
+    if not q:
+        add("linsolve", "real-n2-spd", n=2, mclass="symmetric", lda=False, solver="real", posdiag=True)
+        add("linsolve", "real-n3-symindef", n=3, mclass="symmetric", lda=False, solver="real", indef=True)
     for n in ([2, 3] if q else [2, 3]):
         add("inverse", "n%d" % n, n=n)
     add("inverse", "n2-cplx", n=2, cplx=True)
@@ -68,8 +85,8 @@ def items(tier):
     add("sysofeq", "n3-freeonly", n=3, free=[0, 1], given="free", mclass="general", sparse=True)
     add("sysofeq", "n3-presonly", n=3, free=[1, 2], given="prescribed", mclass="general", sparse=True)
     add("sysofeq", "n3-sym", n=3, free=[0, 2], mclass="symmetric", sparse=True)
-    for (n, main, free) in [(3, [0], [1, 2]), (3, [0, 2], [1]), (3, [1], [0]), (4, [0], [1, 2]), (4, [0, 3], [1, 2]),
-                            (4, [2], [0, 1, 3])]:
+    for (n, main, free) in [(3, [0], [1, 2]), (3, [0, 2], [1]), (3, [1], [0]), (4, [0], [1, 2]), (4, [0, 3], [1, 2])] + \
+            ([] if q else [(4, [2], [0, 1, 3])]):
         for sparse in (True, False):
             add("statcond", "n%d-m%s-f%s-%s" % (n, "".join(map(str, main)), "".join(map(str, free)), "sp" if sparse else "de"),
                 n=n, main=main, free=free, sparse=sparse)
@@ -88,8 +105,21 @@ def sc_linsolve(V, P, cfg):
     xs = V.cplxs("xs", shp) if cplx_rhs else V.reals("xs", shp)
     b = A @ xs
     sparse = cfg.get("sparse", False)
+    if V.symbolic:
+        if cfg.get("nonsym"):
+            V.assume(A[0, 1] != A[1, 0], "general class: A is not symmetric (the symmetric class has its own items)")
+        if cfg.get("indef"):
+            V.assume(A[0, 0] < 0, "indefinite symmetric class: A_00 < 0 < A_11 (LDL branch)")
+            V.assume(A[1, 1] > 0)
+        if cfg.get("posdiag"):
+            for i in range(n):
+                V.assume(A[i, i] > 0, "positive diagonal (Cholesky branch, success or fall-back)")
     sA, sb = pym.Signal("A", _mk_sparse(V, A) if sparse else A), pym.Signal("b", b)
-    m = pym.LinSolve([sA, sb])
+    kw = dict(cfg.get("flags", {}))
+    if cfg.get("solver") == "oracle" and V.symbolic:
+        from symx.oracles import ContractSolver
+        kw["solver"] = ContractSolver()
+    m = pym.LinSolve([sA, sb], **kw)
     m.use_lda_solver = bool(cfg.get("lda", False))
     if V.symbolic:
         from symx import oracles
